@@ -41,9 +41,49 @@ impl Future for YieldN {
 }
 
 thread_local! {
-    /// (scenario, step) -> (logs before await, yields, logs after await, fail on first attempt)
-    static PLAN: RefCell<HashMap<(usize, usize), (usize, usize, usize, bool)>> = RefCell::new(HashMap::new());
+    /// (scenario, step) -> (logs before await, yields, logs after await, fail on first attempt, text kind)
+    static PLAN: RefCell<HashMap<(usize, usize), (usize, usize, usize, bool, u8)>> = RefCell::new(HashMap::new());
     static SEEN: RefCell<HashMap<(usize, usize), usize>> = RefCell::new(HashMap::new());
+    /// scenario -> (logs in the before hook, logs in the after hook)
+    static HOOKS: RefCell<HashMap<usize, (usize, usize)>> = RefCell::new(HashMap::new());
+}
+
+/// what follows the `L <scen> <step> <k>` head of a message:
+/// 0 plain, 1 separators of the collector's in-band framing in the MIDDLE of the text, 2 the END marker
+fn tail(kind: u8, k: usize) -> &'static str {
+    match kind {
+        0 => "",
+        1 => [" a__b", " status=__unknown here", " __7", " x__unknown"][k % 4],
+        _ => " __cucumber__scenario z",
+    }
+}
+
+fn scen_of(s: &gherkin::Scenario) -> usize {
+    s.name.rsplit('-').next().and_then(|x| x.parse().ok()).unwrap_or(0)
+}
+
+fn before_hook<'a>(_: &'a gherkin::Feature, _: Option<&'a gherkin::Rule>, s: &'a gherkin::Scenario, _: &'a mut TW) -> LocalBoxFuture<'a, ()> {
+    async move {
+        let sc = scen_of(s);
+        let n = HOOKS.with(|h| h.borrow().get(&sc).map_or(0, |x| x.0));
+        for k in 0..n {
+            tracing::info!("L {sc} 98 {k}");
+            if k == 0 { YieldN(1).await; }
+        }
+    }
+    .boxed_local()
+}
+
+fn after_hook<'a>(_: &'a gherkin::Feature, _: Option<&'a gherkin::Rule>, s: &'a gherkin::Scenario, _: &'a event::ScenarioFinished, _: Option<&'a mut TW>) -> LocalBoxFuture<'a, ()> {
+    async move {
+        let sc = scen_of(s);
+        let n = HOOKS.with(|h| h.borrow().get(&sc).map_or(0, |x| x.1));
+        for k in 0..n {
+            tracing::info!("L {sc} 99 {k}");
+            if k == 0 { YieldN(1).await; }
+        }
+    }
+    .boxed_local()
 }
 
 fn step_fn(_: &mut TW, ctx: step::Context) -> LocalBoxFuture<'_, ()> {
@@ -51,14 +91,14 @@ fn step_fn(_: &mut TW, ctx: step::Context) -> LocalBoxFuture<'_, ()> {
         // text: "log <scen> <step>"
         let t: Vec<usize> = ctx.step.value.split(' ').skip(1).filter_map(|x| x.parse().ok()).collect();
         let (sc, st) = (t[0], t[1]);
-        let (before, yields, after, fail_once) = PLAN.with(|p| p.borrow().get(&(sc, st)).copied().unwrap_or((0, 0, 0, false)));
+        let (before, yields, after, fail_once, kind) = PLAN.with(|p| p.borrow().get(&(sc, st)).copied().unwrap_or((0, 0, 0, false, 0)));
         let nth = SEEN.with(|s| { let mut s = s.borrow_mut(); let e = s.entry((sc, st)).or_insert(0); *e += 1; *e });
         for k in 0..before {
-            tracing::info!("L {sc} {st} {k}");
+            tracing::info!("L {sc} {st} {k}{}", tail(kind, k));
         }
         YieldN(yields).await;
         for k in before..before + after {
-            tracing::info!("L {sc} {st} {k}");
+            tracing::info!("L {sc} {st} {k}{}", tail(kind, k));
         }
         YieldN(yields / 2).await;
         if fail_once && nth == 1 {
@@ -91,15 +131,24 @@ impl Writer<TW> for RecW {
 impl writer::Normalized for RecW {}
 
 /// the child: one run, prints `mon.c20 …` to stdout
-pub fn child(seed: u64) {
+pub fn child(seed: u64, mode: &str) {
     let mut rng = Rng::new(seed);
-    let nscen = rng.range(1, 12);
+    let directed = mode != "rand";
+    let nscen = if directed { 1 } else { rng.range(1, 12) };
     let limit = *rng.pick(&[1usize, 2, 4, 12]);
+    // run-wide modes
+    let with_hooks = !directed && rng.chance(1, 2);
+    let burst = !directed && rng.chance(1, 5);
+    let outer_span = !directed && rng.chance(1, 3);
+    let marker_run = !directed && rng.chance(1, 8);
+    let mut marked: Vec<(usize, usize)> = vec![];
+    let mut hooks: HashMap<usize, (usize, usize)> = HashMap::new();
     let mut feats = vec![];
     let mut plan = HashMap::new();
     let mut expected: Vec<(usize, usize, usize)> = vec![];
     let mut id = 0;
-    let nfeat = rng.range(1, 2);
+    let nfeat = if directed { 1 } else { rng.range(1, 2) };
+    let mut burst_left = if burst { rng.range(1, 2) } else { 0 };
     for f in 0..nfeat {
         let mut scens = vec![];
         for _ in 0..(nscen / nfeat).max(1) {
@@ -108,10 +157,27 @@ pub fn child(seed: u64) {
             let fail_step = if rng.chance(1, 4) { Some(rng.below(nsteps)) } else { None };
             let mut steps = vec![];
             for st in 0..nsteps {
-                let (b, y, a) = (rng.below(3), rng.below(4), rng.below(3));
-                plan.insert((id, st), (b, y, a, fail_step == Some(st)));
+                let (mut b, y, a) = (rng.below(3), rng.below(4), rng.below(3));
+                // a burst: many events with no await point in between (more than a few polls can forward)
+                if burst_left > 0 && rng.chance(1, 3) { b = rng.range(120, 400); burst_left -= 1; }
+                let kind: u8 = match mode {
+                    "d0" => 2,
+                    "d1" => 1,
+                    _ if marker_run && b + a > 0 && rng.chance(1, 3) => 2,
+                    _ if rng.chance(1, 5) => 1,
+                    _ => 0,
+                };
+                if directed && b + a == 0 { b = 2; }
+                if kind == 2 && b + a > 0 { marked.push((id, st)); }
+                plan.insert((id, st), (b, y, a, fail_step == Some(st), kind));
                 expected.push((id, st, b + a));
                 steps.push(StepSpec { ty: gherkin::StepType::Given, value: format!("log {id} {st}") });
+            }
+            if with_hooks {
+                let h = (rng.below(3), rng.below(3));
+                hooks.insert(id, h);
+                expected.push((id, 98, h.0));
+                expected.push((id, 99, h.1));
             }
             scens.push(ScenSpec {
                 id,
@@ -128,20 +194,30 @@ pub fn child(seed: u64) {
         feats.push(built);
     }
     PLAN.with(|p| *p.borrow_mut() = plan);
+    HOOKS.with(|h| *h.borrow_mut() = hooks);
     let coll = step::Collection::<TW>::new().given(None, Regex::new("^log ").unwrap(), step_fn);
     let log: Rc<RefCell<Vec<String>>> = Rc::default();
     let r = runner::Basic::<TW>::default().steps(coll).max_concurrent_scenarios(Some(limit));
-    let c = Cucumber::<TW, _, (), _, _, cli::Empty>::custom(VecParser(feats.into_iter().map(Ok).collect()), r, RecW(Rc::clone(&log)))
-        .with_default_cli()
-        .init_tracing();
-    let _w = block_on(c.run(()));
+    macro_rules! go { ($r:expr) => {{
+        let c = Cucumber::<TW, _, (), _, _, cli::Empty>::custom(VecParser(feats.into_iter().map(Ok).collect()), $r, RecW(Rc::clone(&log)))
+            .with_default_cli()
+            .init_tracing();
+        if outer_span {
+            // the whole run inside a user span (an instrumented `main`)
+            use tracing::Instrument as _;
+            let _w = block_on(c.run(()).instrument(tracing::info_span!("suite")));
+        } else {
+            let _w = block_on(c.run(()));
+        }
+    }}; }
+    if with_hooks { go!(r.before(before_hook).after(after_hook)) } else { go!(r) }
     // events -> wire
     let (mut pe, mut _pe2) = (0usize, 0usize);
     let evs: Vec<String> = log.borrow().iter().map(|l| {
         // Log lines carry "<scen> <step> <k>" after the probe's `log`
         let t: Vec<&str> = l.split(' ').collect();
         if t.len() >= 9 && t[0] == "A" && t[5] == "log" {
-            let msg = if t[6] == "?" { 999_999_999 } else { t[6].parse::<usize>().unwrap() * 10_000 + t[7].parse::<usize>().unwrap() * 100 + t[8].parse::<usize>().unwrap() };
+            let msg = if t[6] == "?" { 999_999_999_999 } else { t[6].parse::<usize>().unwrap() * 10_000_000 + t[7].parse::<usize>().unwrap() * 100_000 + t[8].parse::<usize>().unwrap() };
             format!("A {} {} {} {} log {msg}", id_num(t[1]), if t[2] == "-" { "-".to_owned() } else { id_num(t[2]) }, id_num(t[3]), t[4].replace('/', " "))
         } else {
             let w = crate::fam_sched::label_of(&format!("TX {l}"), &mut pe, &mut _pe2);
@@ -149,28 +225,37 @@ pub fn child(seed: u64) {
         }
     }).collect();
     println!(
-        "mon.c20 {} {} {}",
+        "mon.c20 {} {} {} {}",
         limit,
         show_list(&expected, |(s, st, n)| format!("{s} {st} {n}")),
+        show_list(&marked, |(s, st)| format!("{s} {st}")),
         show_list(&evs, |e| e.clone()),
     );
+    eprintln!("MODES hooks={with_hooks} burst={burst} outer={outer_span} marker={marker_run}");
 }
 
 fn id_num(name: &str) -> String {
     name.rsplit('-').next().unwrap_or("0").to_owned()
 }
 
-pub fn gen_trace(rng: &mut Rng, _idx: usize) -> Case {
+pub fn gen_trace(rng: &mut Rng, idx: usize) -> Case {
     let seed = rng.next() % 1_000_000;
     let exe = std::env::current_exe().expect("current exe");
-    let out = std::process::Command::new(exe).args(["--tracing-child", &seed.to_string()]).output().expect("spawn child");
+    // directed: case 0 = every message of the step contains the END marker (finding F-C20b),
+    // case 1 = messages containing `__unknown` / `__` in the middle (F-C20a, fixed)
+    let mode = match idx { 0 => "d0", 1 => "d1", _ => "rand" };
+    let out = std::process::Command::new(exe).args(["--tracing-child", &seed.to_string(), mode]).output().expect("spawn child");
     let stdout = String::from_utf8_lossy(&out.stdout);
     let line = stdout.lines().find(|l| l.starts_with("mon.c20 ")).map(str::to_owned);
     match line {
         Some(l) => {
             let n = l.matches(" log ").count();
             let conc = l.split(' ').nth(1).unwrap_or("?").to_owned();
-            Case { req: l, imp: "ok".into(), class: format!("limit{conc}/logs{}", match n { 0 => "0", 1..=5 => "few", _ => "many" }), nontrivial: n > 0 }
+            let err = String::from_utf8_lossy(&out.stderr);
+            let modes = err.lines().find(|l| l.starts_with("MODES ")).map_or(String::new(), |m| {
+                m.split(' ').skip(1).filter(|kv| kv.ends_with("=true")).map(|kv| format!("/{}", kv.trim_end_matches("=true"))).collect()
+            });
+            Case { req: l, imp: "ok".into(), class: format!("limit{conc}/logs{}{modes}", match n { 0 => "0", 1..=5 => "few", 6..=99 => "many", _ => "burst" }), nontrivial: n > 0 }
         }
         None => Case {
             req: "harness.ended".into(),
